@@ -26,6 +26,7 @@ RULE_EXT = ("dyn: cases = real vm.Contexts created (System.Contract.Call, CALLT,
             "the permission rule) plus seeded random ones over a larger universe; every event is judged by FlagsDynTrace with the "
             "abstract clauses of FlagsDyn over the table the specification tracks")
 
+RULE = RULE_EXT
 # (cfg, deviation, the clause that must refute it)
 BUGS = (("MC_bug_perm_stored.cfg", "PermWrongManifest/stored"), ("MC_bug_perm_loaded.cfg", "PermWrongManifest/loaded"),
         ("MC_bug_safe.cfg", "SafeFromTxStart"), ("MC_bug_dead.cfg", "DeadCallable"),
@@ -36,42 +37,44 @@ KIND = {"FlagsShrink": "FlagsShrink", "CallImpliesAllowCall": "EffectImpliesFlag
         "SafeStripped": "SafeNeverWrites", "CallImpliesPermission": "CallImpliesPermission",
         "EffectImpliesFlag": "EffectImpliesFlag", "SafeNeverWrites": "SafeNeverWrites",
         "BlockedHashRedeployed": "BlockedHashRedeployed"}
-# the specification's table is not the chain's / an event the abstract machine has no step for / the real block did not
-# do what the observed run did: the history is not judged
-UNJUDGEABLE = ("ModelStep", "TableStored", "BlockConfirms")
+# Binding failures.  An event the abstract machine has no step for, or a transaction that left another application log in
+# the real block than in the observed run: nothing is judged from the start of that transaction on.  A table read back
+# after a block that is not the table the specification tracks: nothing is judged AFTER that block (what happened before
+# it was judged against the table the completed management operations ask for - if the chain stores something else,
+# that is exactly what makes these clauses fail).  The other names are reported as drift only.
+CUT_TX = ("ModelStep", "BlockConfirms")
+CUT_AFTER = ("TableStored", "TableCache")
 MAX_SIGS = 8
-
-
-def par(ctx, jobs, width):
-    """Run TLC jobs (callables returning the dict of ctx.tlc) concurrently; results in order."""
-    with concurrent.futures.ThreadPoolExecutor(max_workers=width) as ex:
-        return list(ex.map(lambda j: j(), jobs))
 
 
 def run_ext(ctx):
     q = ctx.quick()
     d = ctx.spec_scratch("flagsdyn")
-    ncpu = ctx.ncpu
-    # ---------------------------------------------------------------- 1. + 2. models (concurrently)
+    # ---------------------------------------------------------------- 1. + 2. models (in the background, concurrently)
     mcs = [("MC_abs.cfg", 2), ("MC_q_loaded.cfg", 3), ("MC_q_stored.cfg", 3), ("MC_two2.cfg", 3)] if q else \
           [("MC_abs.cfg", 2), ("MC_full_loaded.cfg", 4), ("MC_full_stored.cfg", 4), ("MC_two2.cfg", 3), ("MC_three2.cfg", 4)]
-    jobs = []
-    for cfg, _ in BUGS:
-        jobs.append(lambda cfg=cfg: ctx.tlc(d, "MCFlagsDyn.tla", cfg, 600, workers=1))
-    for cfg, wk in mcs:
-        jobs.append(lambda cfg=cfg, wk=wk: ctx.tlc(d, "MCFlagsDyn.tla", cfg, 900 if q else 3000, workers=wk))
-    sims = []
-    for cfg, sd in (("Sim_dyn.cfg", ctx.seed), ("Sim_dyn_stored.cfg", ctx.seed + 7919)):
-        jobs.append(lambda cfg=cfg, sd=sd: sims.append((cfg, ctx.tlc_sim("flagsdyn", "FlagsDynSim.tla", cfg, num=60 if q else 500, depth=120,
-                                                                         timeout=300 if q else 1200, seed=sd))))
-    res = par(ctx, jobs, 6 if q else 5)
-    for (cfg, name), r in zip(BUGS, res[:len(BUGS)]):
+    pool = concurrent.futures.ThreadPoolExecutor(max_workers=8 if q else 6)
+    simf = [pool.submit(lambda cfg=cfg, sd=sd: (cfg, ctx.tlc_sim("flagsdyn", "FlagsDynSim.tla", cfg, num=100 if q else 600, depth=120,
+                                                                 timeout=300 if q else 1200, seed=sd)))
+            for cfg, sd in (("Sim_dyn.cfg", ctx.seed), ("Sim_dyn_stored.cfg", ctx.seed + 7919))]
+    bugf = [pool.submit(lambda cfg=cfg: ctx.tlc(d, "MCFlagsDyn.tla", cfg, 600, workers=1)) for cfg, _ in BUGS]
+    mcf = [pool.submit(lambda cfg=cfg, wk=wk: ctx.tlc(d, "MCFlagsDyn.tla", cfg, 900 if q else 3000, workers=wk)) for cfg, wk in mcs]
+    try:
+        _run(ctx, q, [f.result() for f in simf], bugf, mcf, mcs)
+    finally:
+        pool.shutdown(wait=True)
+
+
+def models_done(ctx, bugf, mcf, mcs, q):
+    for (cfg, name), f in zip(BUGS, bugf):
+        r = f.result()
         if r["timed_out"]:
             raise vlib.Inconclusive("dyn: TLC timed out on %s" % cfg)
         if not (r["error"] and vlib.is_property_failure(r["out"])):
             raise vlib.Inconclusive("dyn: named deviation %s not refuted by the abstract clauses (vacuous model): %s" % (name, r["error"]))
         ctx.extra["dyn_model_selftests"] = ctx.extra.get("dyn_model_selftests", 0) + 1
-    for (cfg, _), r in zip(mcs, res[len(BUGS):len(BUGS) + len(mcs)]):
+    for (cfg, _), f in zip(mcs, mcf):
+        r = f.result()
         if r["timed_out"]:
             raise vlib.Inconclusive("dyn: TLC timed out on %s" % cfg)
         if r["error"]:
@@ -80,8 +83,11 @@ def run_ext(ctx):
         ctx.transitions += r["transitions"]
         vlib.log("MC MCFlagsDyn/%s: %d distinct states, %d generated, %.1fs" % (cfg, r["states"], r["transitions"], r["wall_s"]))
     ctx.extra["dyn_constants"] = ("2-3 contracts x 2 manifests, 2 methods (q with 2 or 3 parameters), 1 group, 2-3 method tokens, "
-                                  "%d requested flag sets, call depth <= 3, <= 2 management operations per transaction, "
-                                  "both permission rules" % (2 if q else 4))
+                                  "%s requested flag sets, call depth <= 3, <= 2 management operations per transaction, 1-2 transactions, "
+                                  "both permission rules" % ("2-3" if q else "3-4"))
+
+
+def _run(ctx, q, sims, bugf, mcf, mcs):
     # ---------------------------------------------------------------- 3. behaviours of the implementation-shaped model
     rnd = random.Random(ctx.seed)
     behaviours = []
@@ -103,7 +109,8 @@ def run_ext(ctx):
     json.dump(behaviours, open(os.path.join(ind, "behaviours.json"), "w"))
     ctx.extra["dyn_tlc_histories"] = len(behaviours)
     # ---------------------------------------------------------------- 4. the real chain
-    res = ctx.go_driver("c16dyn", "TestDriver", env={"VERIF_IN": ind, "VERIF_RANDOM": 400 if q else 12000}, timeout=3000)
+    res = ctx.go_driver("c16dyn", "TestDriver", env={"VERIF_IN": ind, "VERIF_RANDOM": 400 if q else 12000, "VERIF_SCRIPTED_EVERY": 1},
+                        timeout=3000)
     stats = res.pop("stats", None) or {}
     for k, v in stats.items():
         ctx.extra["dyn_" + k] = v
@@ -114,6 +121,10 @@ def run_ext(ctx):
     fails = ctx.trace_judge_parts("flagsdyn", "FlagsDynTrace.tla", "Trace_FlagsDyn.cfg", events, max_events=30000, timeout=3000,
                                   workers=4)
     ctx.traces_validated += res.get("traces", 0)
+    models_done(ctx, bugf, mcf, mcs, q)
+    if not q:
+        # vacuity guard: every action of the implementation-shaped model is taken
+        ctx.tlc_mc("flagsdyn", "MCFlagsDyn.tla", "MC_q_stored.cfg", timeout=1800, workers=4, coverage=True)
     report(ctx, events, fails)
     coverage(ctx, events)
     ctx.assumptions.append("dyn: what a transaction did is observed on an interop.Context of the real chain whose DAO is layered "
@@ -181,8 +192,8 @@ def signature(events, li, name):
 
 
 def report(ctx, events, fails):
-    """C16 failures -> violations (at most MAX_SIGS signatures); binding failures -> drift, and a history with an
-    unjudgeable one is not judged."""
+    """C16 failures -> violations (at most MAX_SIGS signatures); binding failures -> drift, and they bound what is judged of
+    their history (CUT_TX / CUT_AFTER)."""
     by_hist = {}
     for f in sorted(fails, key=lambda f: f["line"]):
         s, _ = history_of(events, f["line"] - 1)
@@ -197,11 +208,21 @@ def report(ctx, events, fails):
                 f = binding[0]
                 ctx.spec_drift.append({"part": PART, "kind": "table-model-mismatch", "what": sorted(f["what"]),
                                        "history": events[s].get("h"), "event": events[f["line"] - 1]})
-        if any(set(f["what"]) & set(UNJUDGEABLE) for f in fs):
-            unjudged += 1
-            continue
+        cut = None
         for f in fs:
             li = f["line"] - 1
+            if set(f["what"]) & set(CUT_TX):
+                while events[li]["event"] not in ("begintx", "init"):
+                    li -= 1
+            elif not set(f["what"]) & set(CUT_AFTER):
+                continue
+            cut = li if cut is None else min(cut, li)
+        if cut is not None:
+            unjudged += 1
+        for f in fs:
+            li = f["line"] - 1
+            if cut is not None and li >= cut:
+                continue
             for name in sorted(set(f["what"]) & set(KIND)):
                 sig = signature(events, li, name)
                 k = json.dumps(sig, sort_keys=True)
@@ -222,11 +243,11 @@ def report(ctx, events, fails):
                                             "real interop.Context / vm.Context objects at every instruction (monitor_test.go)"})
     ctx.extra["dyn_trace_events"] = len(events)
     ctx.extra["dyn_histories_with_binding_mismatch"] = nbind
-    ctx.extra["dyn_histories_not_judged"] = unjudged
+    ctx.extra["dyn_histories_judged_only_in_part"] = unjudged
     ctx.extra["dyn_trace_lines_rejected"] = len(fails)
     nh = sum(1 for e in events if e["event"] == "init")
-    if unjudged > max(2, nh // 20):
-        raise vlib.Inconclusive("dyn: %d of %d histories could not be judged (binding): %s" % (unjudged, nh, ctx.spec_drift[:2]))
+    if unjudged > max(2, nh // 20) and not ctx.violations:
+        raise vlib.Inconclusive("dyn: %d of %d histories could not be judged entirely (binding): %s" % (unjudged, nh, ctx.spec_drift[:2]))
     ctx.samples.append({"part": PART, "history": events[0].get("h"),
                         "events": [{k: v for k, v in e.items() if k not in ("cat", "toks")} for e in events[:8]]})
 
@@ -343,13 +364,25 @@ def selftest(ctx, events):
         if len(want) == 4:
             break
     done = 0
-    for name in ("shrink", "safe", "effect", "perm"):
+    names = ("shrink", "safe", "effect", "perm")
+    for name in names:
         if name not in want:
             raise vlib.Inconclusive("dyn: binding self-test: nothing to corrupt for %s" % name)
+
+    # one TLC run over the four corrupted histories, one after the other
+    allp, offs = [], {}
+    for name in names:
         li, bad, expect, at = want[name]
         s, e = history_of(events, li)
-        part = events[s:li] + [bad] + events[li + 1:e + 1]
-        fails = judge_small(ctx, part, "dyn-selftest-%s.ndjson" % name)
+        offs[name] = len(allp)
+        allp += events[s:li] + [bad] + events[li + 1:e + 1]
+    offs["<end>"] = len(allp)
+    allf = judge_small(ctx, allp, "dyn-selftest.ndjson")
+    for i, name in enumerate(names):
+        li, bad, expect, at = want[name]
+        s, e = history_of(events, li)
+        lo, hi = offs[name], offs[names[i + 1]] if i + 1 < len(names) else offs["<end>"]
+        fails = [dict(f, line=f["line"] - lo) for f in allf if lo < f["line"] <= hi]
         if not any(f["line"] == at - s + 1 and expect in f["what"] for f in fails) or any(f["line"] < li - s + 1 for f in fails):
             raise vlib.Inconclusive("dyn: binding self-test %s: corrupted record not rejected as expected (%s at line %d): %s" % (
                 name, expect, at - s + 1, [(f["line"], f["what"]) for f in fails[:4]]))
